@@ -475,6 +475,14 @@ pub fn run_gen(args: &Args, mut out: Out) {
                 disk_fail: false,
             });
         }
+        // the last request's declared body may stop short: the client sends part of it and half-closes in an orderly way
+        // (no reset).  The request was never received in full: 400, no (further) handler run, the connection ends.
+        if let Some(q) = reqs.last_mut() {
+            if q.kind == "known" && !q.body.is_empty() && r.gen_bool(0.15) {
+                let keep = *[0usize, 1, q.body.len() / 2, q.body.len() - 1].choose(&mut r).unwrap();
+                q.body.truncate(keep);
+            }
+        }
         let any_expect = reqs.iter().any(|q| q.expect);
         let sched = if any_expect {
             Schedule::PingPong
